@@ -48,6 +48,25 @@ theorem json_number_value_fails (h : Generated.lyjsonExpLeadingZeroFixed = false
   rw [this] at hd
   cases hd
 
+/-
+-- OPEN: `json_number_value_partial` — the true part of `JsonNumberValue`:
+
+  theorem json_number_value_partial (t : NumText) (rest : Bytes) (hwf : t.wf = true) (hs : Stops rest = true)
+      (hx : Generated.lyjsonExpLeadingZeroFixed = true ∨
+            ¬ (t.ip = [48] ∧ t.fp.isSome ∧ 0 < t.expVal ∧ t.expVal ≤ t.fracLen)) :      -- the branch of F14 excluded
+      ∀ r, number (t.render ++ rest) = .ok r →
+        r.consumed = t.render.length ∧ ∃ d, parseDec r.value = some d ∧ SameValue t d
+
+-- Not proved in this round.  In place: the scanner helper lemmas (`Lex/JsonNumScan.lean`: `rd_of_drop`,
+-- `drop_of_drop_append`, `countDigits_prefix`, the `NoDigitAhead` facts of a rendered text, `wf_ip/fp/exp`) and the
+-- rendering lemmas (`Lex/JsonNumRender.lean`: the stores of every branch are consecutive (`copyGo_eq_seqW`,
+-- `memsetW_eq_seqW`), the value read back is the byte list written cut at `buf_len` (`value_of_seqW`), and the copy
+-- loop writes `insertDot (dp − d) (eraseDec …)` (`copyBytes_eq`)).  Missing: the evaluation of `scan`/`prep` on a
+-- rendered text and the per-branch arithmetic `digitsVal`.  Until then the statement is carried by the (L) law of the
+-- check: python `fractions` on the exhaustive number micro-grammar and 3 000 / 200 000 random texts per run
+-- (35 805 + 719 texts in the quick tier; every failing one is an instance of F14).
+-/
+
 /-- non-vacuity of the full statement's hypotheses, and a case where its conclusion does hold: `-12.50e-3,` → `-0.0125` -/
 example : ∃ r, number (NumText.render { neg := true, ip := [49, 50], fp := some [53, 48], exp := some (false, some true, [51]) } ++ [44]) = .ok r ∧
     r.consumed = 9 ∧ ∃ d, parseDec r.value = some d ∧
